@@ -130,6 +130,21 @@ def run(ctx):
     ctx.coverage["behaviours_generated"] = len(behaviours)
     shapes = shape_counts(behaviours)
     ctx.coverage.update(shapes)
+    # the gated in-flight round: torn answers are outside what C08 states (it quantifies over stored chains,
+    # not over schedules) - reported as observations, never as verdicts
+    obs = res.get("stats", {}).get("observations", {})
+    by_class = {}
+    for k, n in sorted(obs.get("counts", {}).items()):
+        cls, method, ver = k.split(":")
+        by_class.setdefault(cls, {}).setdefault(method, {})[ver] = n
+    for cls, methods in sorted(by_class.items()):
+        total = sum(sum(v.values()) for v in methods.values())
+        ex = (obs.get("examples", {}).get(cls) or [""])[0]
+        print("OBSERVATION: property=%s %s: %d in-flight requests (no per-request snapshot: a Store/RevertHead/SetL1Head "
+              "committed between two store reads of one request) on %s; e.g. %s" % (
+                  ctx.prop, cls, total, ", ".join("%s[%s]" % (m, "/".join(sorted(v))) for m, v in sorted(methods.items())),
+                  ex[:300]), flush=True)
+    ctx.coverage["observations"] = {"counts": by_class, "examples": obs.get("examples", {})}
     # a listed known finding that did not show up is worth a note (it may have been repaired)
     for k in ctx.known:
         if k["status"] == "known" and k["key"] not in [h["key"] for h in ctx.known_hits]:
@@ -161,13 +176,20 @@ def run(ctx):
         "blocks are built by chainkit through the real Simulate/SanityCheckNewHeight/Store; the hash and "
         "commitment algorithms are not in question here (C01/C02)",
         "no pre-confirmed data (sync.NoopSynchronizer): pre_confirmed must be BLOCK_NOT_FOUND on v0.9/v0.10",
+        "C08 quantifies over stored chains, not schedules: answers torn by a mutator committed between two store "
+        "reads of one in-flight request are reported as OBSERVATION, not judged; the sequential re-read after the "
+        "race, hangs and process crashes are judged",
         "v0.8 has no l1_accepted / pre_confirmed tags: InvalidParams there is a specification difference",
         "finality is decided by the recorded L1 head NUMBER only (as the property states); the L1 head's hash is not compared",
     ]
     return ctx.finish(
         "model_checking",
         "exhaustive TLC on RpcRead.tla (chains <= 3 [thorough: 4] blocks, <= 2 reverts, 2 block variants per height, "
-        "L1 head none/below/at/above the height; every read method x every identifier kind incl. absent numbers, "
-        "reverted, unknown and zero hashes) for the as-is and the repaired model + TLC-simulated behaviours of 48 "
-        "steps replayed request by request on v0.8/v0.9/v0.10 x {legacy, new} state; non-trivial = every behaviour "
-        "interleaves Store/Revert/SetL1Head with reads, >= 100 reads answered with data")
+        "L1 head none/below/at/above the height/2^64-1; every read method x every identifier kind incl. absent and "
+        "2^64-1 numbers, reverted, unknown and zero hashes, index 2^62; Restart; composite in-flight steps) for the "
+        "as-is and the repaired model + TLC-simulated behaviours of 48 steps replayed request by request on "
+        "v0.8/v0.9/v0.10 x {legacy, new state on memory, legacy on Pebble} behind a poisoning store (lent buffers are "
+        "scribbled), with restarts, retained-response checks and gated in-flight requests (every store read of every "
+        "version paused while Store/Revert/SetL1Head run; judged: sequential re-read afterwards, no hang; torn answers "
+        "are observations); non-trivial = every behaviour interleaves Store/Revert/SetL1Head with reads, >= 100 reads "
+        "answered with data, every method and error kind seen, dropped tx hashes read with their slot re-occupied")
